@@ -377,9 +377,12 @@ def handle (h : Handler) (intr : Bool) (args : List (Arg N)) : Res (Val N) :=
     | some (.ref _) => assertPanic "jpfNotNull (non-JSON result)"
     | none => .ok .null
 
+/-- The bytes of a (plain ASCII) function-table key. -/
+def keyBytes (s : String) : Bytes := s.toList.map (fun c => c.toNat.toUInt8)
+
 /-- `functionCaller.CallFunction`. -/
 def callFunction (table : List FnEntry) (name : Bytes) (args : List (Arg N)) : Res (Val N) :=
-  match table.find? (fun e => b e.key = name) with
+  match table.find? (fun e => keyBytes e.key = name) with
   | none => .err (.other "unknown function")
   | some e =>
     match resolveArgs e args with
